@@ -99,7 +99,7 @@ def excluded13 (s : State) : Op → Prop
        | _, _ => False) ∨
       (∃ s2 a, preExtend s k c value size ext add rem rw cc dp = .ok (s2, true) ∧ s2.allocs k = some a ∧ ¬ Uniform a.bas)
   | .killBlobber i _ del => isDead s i = true ∨ del = true
-  | .shutBlobber i del => isDead s i = true ∨ del = true
+  | .shutBlobber i _ del => isDead s i = true ∨ del = true
   | _ => False
 
 theorem updLock_blobbers {s s' : State} {k j v : Nat} (h : updLock s k j v = .ok s') : s'.blobbers = s.blobbers := by
@@ -192,7 +192,7 @@ theorem tracks_partial {s s' : State} {op : Op} (hi : Inv13 s) (h : stepRel s op
     cases d with
     | true => exact absurd rfl hn.2
     | false => exact inv13_frame (killBlobber_frame13 h (by simpa using hn.1)) hi
-  | shutBlobber i d =>
+  | shutBlobber i n d =>
     simp only [excluded13, not_or] at hn
     cases d with
     | true => exact absurd rfl hn.2
@@ -331,7 +331,7 @@ def safe13 (s : State) : Op → Bool
           | none => true)
        | _ => true)
   | .killBlobber i _ del => !isDead s i && !del
-  | .shutBlobber i del => !isDead s i && !del
+  | .shutBlobber i _ del => !isDead s i && !del
   | _ => true
 
 theorem safe13_sound {s : State} {op : Op} (h : safe13 s op = true) : ¬ excluded13 s op := by
@@ -355,7 +355,7 @@ theorem safe13_sound {s : State} {op : Op} (h : safe13 s op = true) : ¬ exclude
     intro hex; rcases hex with hex | hex
     · rw [hex] at h; exact absurd h.1 (by decide)
     · rw [hex] at h; exact absurd h.2 (by decide)
-  | shutBlobber i d =>
+  | shutBlobber i n d =>
     simp only [safe13, Bool.and_eq_true, Bool.not_eq_true'] at h
     intro hex; rcases hex with hex | hex
     · rw [hex] at h; exact absurd h.1 (by decide)
